@@ -100,13 +100,14 @@ def scenarios(thorough):
         "ionization_small_taskspace_2threads": [["--task-based", "--params", "ion_small_taskspace.param", "--threads", "2", "--dirty"]],
         "ionization_trackers_copies_2threads": [["--task-based", "--params", "ion_trackers.param", "--threads", "2", "--dirty"]],
         "rhd_liveoutput_noncubic_subgrids_2threads": [["--task-based-rhd", "--params", "rhd_noncubic.param", "--threads", "2", "--dirty", "--number-of-steps", "2"]],
+        # the photon scheduling state of restored subgrids (premature launch decisions) is only exercised when a run WITH radiation is restarted
+        "rhd_radiation_restart": [["--task-based-rhd", "--params", "rhd.param", "--threads", "2", "--dirty", "--number-of-steps", "1"],
+                                  ["--task-based-rhd", "--params", "rhd.param", "--threads", "2", "--dirty", "--restart", ".", "--number-of-steps", "2"]],
         "rhd_moving_sources_1thread": [["--task-based-rhd", "--params", "rhd_moving.param", "--threads", "1", "--dirty"]],
     }
     if thorough:
         S.update({
             "hydro_4threads": [["--task-based-rhd", "--params", "hydro.param", "--threads", "4", "--dirty", "--number-of-steps", "3"]],
-            "rhd_radiation_restart": [["--task-based-rhd", "--params", "rhd.param", "--threads", "2", "--dirty", "--number-of-steps", "2"],
-                                      ["--task-based-rhd", "--params", "rhd.param", "--threads", "2", "--dirty", "--restart", ".", "--number-of-steps", "2"]],
             "ionization_1thread": [["--task-based", "--params", "ion.param", "--threads", "1", "--dirty"]],
             "ionization_4threads": [["--task-based", "--params", "ion.param", "--threads", "4", "--dirty"]],
             "rhd_radiation_1thread": [["--task-based-rhd", "--params", "rhd.param", "--threads", "1", "--dirty", "--number-of-steps", "3"]],
